@@ -173,6 +173,9 @@ var RangeFunc = function.New(&function.Spec{
 			return cty.NilVal, function.NewArgErrorf(2, "step must not be zero")
 		}
 		down := step.LessThan(cty.Zero).True()
+		if start.AsBigFloat().IsInf() && step.AsBigFloat().IsInf() {
+			return cty.NilVal, function.NewArgErrorf(0, "start and step must not both be infinite")
+		}
 
 		if down {
 			if end.GreaterThan(start).True() {
